@@ -248,6 +248,62 @@ def ref_decode_bitmap(word, labels):
     return ", ".join(names)
 
 
+def bitmap4_sensors(M):
+    """every EnumBitmap4 definition of the three families: (label, sensor)"""
+    out = []
+    for fam, cls_ in (("ET", M.et.ET), ("ES", M.es.ES), ("DT", M.dt.DT)):
+        for name, val in vars(cls_).items():
+            if isinstance(val, tuple) and val and all(hasattr(x, "id_") for x in val):
+                for s_ in val:
+                    if S.cls_name(s_) == "EnumBitmap4" and not any(o is s_ for _, o in out):
+                        out.append((f"{fam}:{s_.id_}", s_))
+    return out
+
+
+class BitmapHistory(Harness):
+    """Two bitmap-label sensors with different tables see the same code word one after the other in one process
+    (same poll or a later one): the second one's text must still list the set bits by *its own* table."""
+
+    name = "bitmap-history"
+
+    def __init__(self, first, second):
+        self.first, self.second = first, second
+        self.params = {"first": first, "second": second}
+
+    def _run(self, M, bit, extra):
+        from vf.common import reset_mutable_class_state, ALL_MODULES
+        reset_mutable_class_state(M, modules=ALL_MODULES)
+        sens = dict(bitmap4_sensors(M))
+        a, b = sens[self.first], sens[self.second]
+        word = (1 << bit) | (1 << extra)
+        outs = []
+        for s_ in (a, b):
+            cmd = M.protocol.ModbusRtuReadCommand(0xF7, s_.offset, 2)
+            resp = S.block_response(M, cmd, word.to_bytes(4, "big"))
+            outs.append(s_.read_value(resp))
+        return word, outs[1], b._labels
+
+    def symbolic(self, ex):
+        G = shimmed()
+        G.sensor.decode_bitmap = G.orig_bitmap
+        bit = int(sym_int("bit", 0, 30))
+        extra = int(sym_int("extra", 0, 30))
+        try:
+            word, got, labels = self._run(G, bit, extra)
+        except Exception as e:  # noqa: BLE001
+            ex.fail("bitmap sensor raised", f"{type(e).__name__}: {e}")
+        if got != ref_decode_bitmap(word, dict(labels.items()) if hasattr(labels, "items") else labels):
+            ex.fail("bitmap labels do not list the set bits of the code word by the sensor's own table", f"{word:#x}: {got!r}")
+        return "value"
+
+    def concrete(self, inputs):
+        R = real()
+        word, got, labels = self._run(R, inputs.get("bit", 0), inputs.get("extra", 0))
+        exp = ref_decode_bitmap(word, labels)
+        return {"outcome": "value", "violation": f"{self.second} after {self.first}: bitmap labels not by the sensor's own table" if got != exp else None,
+                "observed": f"word={word:#x} got={got!r} expected={exp!r}"}
+
+
 class BitmapKernel(Harness):
     """decode_bitmap(value, labels) lists exactly the non-empty labels of the set bits: a window of bits symbolic."""
 
@@ -340,6 +396,11 @@ def tasks(tier, seed):
                     kern.append((t, lo, 8, bg))
     m = 16 if tier == "quick" else 30
     ts += [{"name": f"bitmap-{i}", "fn": "bitmap", "items": kern[i::m]} for i in range(m) if kern[i::m]]
+    names = [n for n, _ in bitmap4_sensors(R)]
+    hist = [(a, b) for a in names for b in names if a != b]
+    for i in range(8):
+        if hist[i::8]:
+            ts.append({"name": f"bitmap-history-{i}", "fn": "bitmap-history", "items": hist[i::8]})
     return ts
 
 
@@ -355,6 +416,9 @@ def run_task(task):
         for e, kind, partners in task["items"]:
             out.append(explore(DerivedHarness(e, kind, partners), max_paths=50000, max_seconds=300,
                                witnesses_per_outcome=1, trace=len(out) < 3))
+    elif task["fn"] == "bitmap-history":
+        for a, b in task["items"]:
+            out.append(explore(BitmapHistory(a, b), max_paths=2000, max_seconds=300, witnesses_per_outcome=1, trace=len(out) < 1))
     else:
         for t, lo, w, bg in task["items"]:
             out.append(explore(BitmapKernel(t, lo, w, bg), max_paths=70000, max_seconds=1500, witnesses_per_outcome=2,
@@ -364,6 +428,8 @@ def run_task(task):
 
 def replay(case):
     p = case["params"]
+    if case["harness"] == "bitmap-history":
+        return BitmapHistory(p["first"], p["second"]).concrete(case["inputs"])
     if case["harness"] == "decode_bitmap":
         return BitmapKernel(p["table"], p["lo_bit"], p["width"], p["background"]).concrete(case["inputs"])
     return DerivedHarness(p, p["pair"], p["partners"]).concrete(case["inputs"])
@@ -377,7 +443,9 @@ def evidence_meta(tier):
         "bounds": {"pairs": "every Calculated/EnumCalculated/Enum*/EnumBitmap* sensor of every live table",
                    "contents": "all bytes of the response symbolic",
                    "decode_bitmap": "quick: 8-bit windows at bits 0/8/16/24 on all-0 and all-1 backgrounds; thorough: whole "
-                                    "low 16-bit word + 8-bit windows of the high word, per label table"},
+                                    "low 16-bit word + 8-bit windows of the high word, per label table",
+                   "bitmap_history": "every ordered pair of EnumBitmap4 definitions (all families) x every word with one or two "
+                                     "bits of 0..30 set: the second sensor decodes the same word right after the first"},
         "outside": ["decode_bitmap over all 2^32 words at once", "float rounding of products (exact rationals, round half even)"],
         "assumptions": ["reference formulas written from the property statement and the comments in the tables "
                         "(checks/c13.py:FORMULAS)", "a derived sensor without a reference formula is reported, not skipped"],
